@@ -9,13 +9,15 @@ fn mode_name(mode: u32) -> &'static str {
     match mode % 4 {
         0 => "fault-free/SqliteStore",
         1 => "faults/SqliteStore",
-        _ => "faults/MemStore",
+        2 => "faults/MemStore",
+        _ => "faults/SqliteStore, 2-3 concurrent ingest activities interleaving at every store call",
     }
 }
 
 fn cfg_for(which: Which, mode: u32) -> IngestCfg {
-    let sqlite = mode % 4 <= 1;
+    let sqlite = mode % 4 != 2;
     let faults = mode % 4 != 0;
+    let concurrent = if mode % 4 == 3 { ctx::range("concurrent", 2, 3) } else { 0 };
     let (prune_num, forge_num, prune_step) = match which {
         Which::C01 => (1, 6, ctx::chance("prune_step", 1, 2)),
         Which::C03 => (1, 2, ctx::chance("prune_step", 1, 2)),
@@ -29,6 +31,7 @@ fn cfg_for(which: Which, mode: u32) -> IngestCfg {
         use_processor: ctx::chance("use_processor", 1, 2),
         world: WorldParams { max_authors: 3, max_logs_per_author: 2, max_ops_per_log: if sqlite { 6 } else { 9 }, prune_num, body_kinds: 4 },
         forge_num,
+        concurrent,
     }
 }
 
@@ -73,7 +76,7 @@ macro_rules! ingest_prop {
                 vec!["the remote peers / network (the simulator delivers operations itself)", "MemStore in the MemStore modes (reference model, differentially tested against SqliteStore by C08/C09)"]
             }
             fn assumptions(&self) -> Vec<&'static str> {
-                vec!["authors never equivocate", "one ingest call in flight at a time (transaction interleavings are C10)", "sampling: a clean batch is evidence, not proof"]
+                vec!["authors never equivocate", "one ingest call in flight at a time except in the concurrent mode, where verdicts of single deliveries are not predicted, only the store invariants are checked", "sampling: a clean batch is evidence, not proof"]
             }
             fn expected_probes(&self) -> Vec<&'static str> {
                 $probes
